@@ -90,7 +90,7 @@ func c04GenProg(family int) string {
 		}
 		return c04Fill(f, h+t)
 	case 4:
-		c, t, tl, cx := c04Pick(c04IfConds, 4), c04Pick(c04IfThens, 5), c04Pick(c04IfTails, 6), c04Pick(c04IfCtxs, 6)
+		c, t, tl, cx := c04Pick(c04IfConds, 3), c04Pick(c04IfThens, 4), c04Pick(c04IfTails, 5), c04Pick(c04IfCtxs, 4)
 		return `1 as $x | ` + c04Fill(cx, `if `+c+` then `+t+` `+tl)
 	default:
 		l, s, c := c04Pick(c04Lits, 12), c04Pick(c04Sufs, 8), c04Pick(c04LitCtxs, 8)
